@@ -132,7 +132,8 @@ def copy_(op, dest, src):
 
 @register_qbytestensor_op([torch.ops.aten.div])
 def div(op, input, other):
-    if not is_scalar(other):
+    if not is_scalar(other) or other <= 0:
+        # Scales must remain positive: only a positive scalar can be folded into the scale
         return qfallback(op, input, other)
     # We just divide the scale
     return QBytesTensor(input.qtype, input.axis, input.size(), input.stride(), input._data, op(input._scale, other))
@@ -222,10 +223,10 @@ def mm(op, input, other):
 
 @register_qbytestensor_op([torch.ops.aten.mul])
 def mul(op, input, other):
-    # If one of the multiplicands is a scalar, just multiply the scale
-    if is_scalar(input):
+    # If one of the multiplicands is a positive scalar, just multiply the scale (scales must remain positive)
+    if is_scalar(input) and input > 0:
         return QBytesTensor(other.qtype, other.axis, other.size(), other.stride(), other._data, input * other._scale)
-    if is_scalar(other):
+    if is_scalar(other) and other > 0:
         return QBytesTensor(input.qtype, input.axis, input.size(), input.stride(), input._data, other * input._scale)
     return qfallback(op, input, other)
 
